@@ -3,9 +3,9 @@
    event EFire task rule now start limit (the implementation logs the same line at the same place). *)
 From Coq Require Import List Arith ZArith Bool.
 Import ListNotations.
-From Acts.Gen Require Import GenState.
+From Acts.Gen Require Import GenState GenTimeout.
 From Acts.Model Require Import Engine Limit.
-From Acts.Proofs Require Import EngineBasics TimeoutInv C02Core C02Ops C19Proofs LimitProofs.
+From Acts.Proofs Require Import EngineBasics TimeoutInv C02Core C02Ops C19Proofs LimitProofs StatePred TimeoutTable.
 
 (* in every run -- any node table, any interleaving of scheduler steps, client actions and ticks of
    any spacing -- a rule fires only when the task has been open for at least the configured
@@ -62,6 +62,19 @@ Example C19_limit_example :
   parse_limit [57; 48; 109] = Some (90%Z, UMinute) /\ limit_ms (90%Z, UMinute) = 5400000%Z /\
   parse_limit [53; 32; 115] = None /\ parse_limit [45; 115] = None.
 Proof. vm_compute. auto. Qed.
+(* the firing rule, statically tied to the source: gen/GenTimeout.v is regenerated from the Timeout arm of hook.rs on every
+   run -- the order closed-check, processed-check, due-check, mark, schedule (no other way out, no state write), the state
+   predicate of the closed-check, the comparison of the due-check and the factor seconds -> clock units.  The model's
+   `rule_fires` (what every tick of every run uses, and what the theorems above are about) is the rule of that table read
+   through the state predicates regenerated from state.rs; the order is the model's; the factor is the one of `limit_ms`.
+   `>=` turned into `>`, another predicate in the closed-check, the mark set after the scheduling, another factor: each
+   changes the table and breaks this proof. *)
+Theorem C19_firing_rule_matches_source :
+  (forall now start done s r, rule_fires now start done (is_completed s) r = fires_of_source now start done s r) /\
+  tmo_order = model_tmo_order /\
+  (forall x, limit_ms x = (as_secs x * tmo_factor)%Z).
+Proof. split; [exact fires_match|]. split; [exact tmo_order_match | exact factor_match]. Qed.
+
 Print Assumptions C19_never_early.
 Print Assumptions C19_at_most_once.
 Print Assumptions C19_closed_never_fires.
@@ -71,3 +84,4 @@ Print Assumptions C19_limit_syntax.
 Print Assumptions C19_limit_value_is_i64.
 Print Assumptions C19_limit_conversion.
 Print Assumptions C19_limit_monotone.
+Print Assumptions C19_firing_rule_matches_source.
